@@ -607,6 +607,15 @@ AA = typing.TypeAliasType("AA", A)
 ANA = typing.TypeAliasType("ANA", NA)
 IA = typing.TypeAliasType("IA", int)
 NIA = typing.NewType("NIA", IA)
+@dataclasses.dataclass
+class Item:
+    n: int = 0
+class Order:
+    @dataclasses.dataclass
+    class Item:
+        # a class nested in a class, named like a top-level one: the reference naming it carries its QUALIFIED name
+        m: int = 0
+NOI = typing.NewType("NOI", Order.Item)
 """
 # (wrapper expression, base expression, intermediate wrappers that a caller may look up in between)
 DEEP_CHAINS = [("NA", "K", ["A"]), ("NN", "K", ["N"]), ("NNA", "K", ["NA", "A"]), ("AN", "K", ["N"]), ("AA", "K", ["A"]),
@@ -652,6 +661,20 @@ def _deep_child(_job):
             look(c, eval(m, ns))
         if look(c, W) is not KeyError or c.get(W, d) is not d:
             bad.append([w, f"absent key {w} after looking up {mids} (all absent): must still be absent"])
+    # nested classes: found under the forward reference naming them by qualified name, and only under that one
+    top, nested = object(), object()
+    c = tctx.TypeContext()
+    c[typing.ForwardRef("Item", module="c16_deep", is_class=True)] = top
+    c[typing.ForwardRef("Order.Item", module="c16_deep", is_class=True)] = nested
+    for w, want, label in (("Item", top, "top"), ("Order.Item", nested, "nested")):
+        got = look(c, eval(w, ns))
+        if got is not want:
+            bad.append([w, f"values stored under ForwardRef('Item') and ForwardRef('Order.Item'): ctx[{w}] is "
+                           f"{'KeyError' if got is KeyError else ('the top-level one' if got is top else 'the nested one')}, expected the {label} one"])
+    c = tctx.TypeContext()
+    c[typing.ForwardRef("Item", module="c16_deep", is_class=True)] = top
+    if look(c, ns["Order"].Item) is not KeyError or c.get(ns["Order"].Item, d) is not d:
+        bad.append(["Order.Item", "only ForwardRef('Item') (the top-level class) is stored: ctx[Order.Item] must be absent"])
     # a string-valued alias unwraps to the reference in its value: a NewType over it finds what is stored under that reference
     r = object()
     c = tctx.TypeContext()
